@@ -1768,5 +1768,29 @@ def compare(code, spec, what="result", hyps=()):
 
 
 def _short(t, n=300):
-    s = str(t).replace("\n", " ")
+    """short printable form of a term for messages.  z3's Python pretty-printer is very slow on large terms (seconds), so
+    big terms are printed through the C-level s-expression printer and truncated."""
+    from .bigsum import SumExpr
+    if is_z3(t):
+        try:
+            s = t.sexpr() if _term_size(t, 400) >= 400 else str(t)
+        except Exception:
+            s = str(t)
+    elif isinstance(t, SumExpr):
+        s = f"SumExpr({_short(t.plain, 80)} + {len(t.terms)} sums" + (": " + _short(t.terms[0].body, 160) if t.terms else "") + ")"
+    else:
+        s = str(t)
+    s = " ".join(s.split())
     return s if len(s) <= n else s[:n] + "..."
+
+
+def _term_size(t, cap):
+    n, todo, seen = 0, [t], set()
+    while todo and n < cap:
+        x = todo.pop()
+        if x.get_id() in seen:
+            continue
+        seen.add(x.get_id())
+        n += 1
+        todo.extend(x.children())
+    return n
